@@ -30,6 +30,14 @@ def run(ctx):
                 "mixtures; 1-3 in a row; fresh / after a lost connection / after a peer restart / queued before the start; peer or third "
                 "Tub) followed by a good lookup (fault-free: must succeed; black hole: must fail at its own time-out), an inbound "
                 "connection, both, or a good lookup from inside the errback; an exception raised inside a timer callback is logged and the loop goes on, as in a reactor; "
+                "connection-hint handlers whose hint_to_endpoint returns a DEFERRED (10 fixed plans x both Tubs x fault-free / black hole, alone and "
+                "mixed with ordinary and unusable hints, a second lookup 0 / 30 / 100 s later; seeded mixtures): never fires, fires 0-300 s "
+                "later with a working endpoint / a refusing endpoint / a failure -- every lookup must fire once within CONNECTION_TIMEOUT of "
+                "being MADE, succeed when an endpoint was there in time, not fail early while an attempt is open; "
+                "an OLD-STYLE peer (hello without my-incarnation) against a deciding Tub with handle-old-duplicate-connections = 30 / 60 "
+                "(seeded: 1-200): the existing connection accepted INBOUND or dialled by the decider, aged 0 / th-1 / th / th+1 / 5 th, then the "
+                "peer restarts or a one-sided cut is noticed by the peer, which dials 1-3 hints: age >= th must displace (exactly one offer), "
+                "age < th must keep; parallel hints of an old-style peer: exactly one accepted; "
                 "(d) SECOND LEG of getReference: either Tub dials (1-2 hints), blocks are delivered until the dialler / both hold a Broker, the "
                 "network then drops every link SILENTLY (no close notification), 20 x 130 s pass, then the dialler's end is told: the "
                 "getReference must fire exactly once, with DeadReferenceError, when told (oracle); while silent it stays pending (NOTE, "
@@ -40,6 +48,12 @@ def run(ctx):
         "(byte-granular interleavings of all phases are exercised by the oracle runs only)",
         "incarnation strings are abstracted to integers compared for equality (the literal 'none' is 0)",
         "vocabulary/version negotiation always succeeds here (C13 covers it)",
+        "the model folds hint resolution into the dial step (synchronous handlers); handlers that answer with a Deferred are exercised "
+        "on the real TubConnector by the oracle runs only (slow-hints family); that connect() arms the timer before any hint is looked "
+        "at is a translated shape fact",
+        "an old-style peer is emulated the way foolscap's own tests do (Tub.incarnation_string = ''); the handle_old decision itself is "
+        "translated and proved (accept iff age >= threshold, age measured from Broker.creation_timestamp), the old-peer oracle family runs "
+        "it end to end on real Tubs for inbound and outbound existing connections",
         "virtual time is integer seconds; the model lets time pass only up to the next armed timer (timed-automaton semantics: a "
         "timer fires AT its deadline), the harness advances the real clock in the same way; the model's Timeout step is a forced "
         "early firing of the connector's timer (DelayedCall.reset(0))",
